@@ -36,6 +36,8 @@ type instVariant struct {
 	unroll       bool
 	source       string // corpus source file relative to /verif/corpus (default m/ifaces.go)
 	srcPkg       string // its package name
+	formatter    string // default goimports
+	outOfPkg     bool   // generate into a sub-directory "mocks" as package mocks (default: next to the interface)
 }
 
 var matryerVariants = []instVariant{
@@ -110,7 +112,11 @@ func (e *instEnv) generate(variants []instVariant) (root string, err error) {
 	}
 	os.WriteFile(filepath.Join(root, "go.mod"), gomod, 0o644)
 	var y strings.Builder
-	y.WriteString("formatter: goimports\nforce-file-write: true\ndir: \"{{.InterfaceDir}}\"\nfilename: \"mocks_gen.go\"\npkgname: \"{{.SrcPackageName}}\"\npackages:\n")
+	rootFormatter := "goimports"
+	if len(variants) == 1 && variants[0].formatter != "" {
+		rootFormatter = variants[0].formatter // (mockery reads the formatter from the top level only)
+	}
+	y.WriteString("formatter: " + rootFormatter + "\nforce-file-write: true\ndir: \"{{.InterfaceDir}}\"\nfilename: \"mocks_gen.go\"\npkgname: \"{{.SrcPackageName}}\"\npackages:\n")
 	for _, v := range variants {
 		source, srcPkg := v.source, v.srcPkg
 		if source == "" {
@@ -130,6 +136,12 @@ func (e *instEnv) generate(variants []instVariant) (root string, err error) {
 			prefix = "Mock"
 		}
 		fmt.Fprintf(&y, "  %s/%s:\n    config:\n      all: true\n      template: %s\n      structname: \"%s{{.InterfaceName}}\"\n      template-data: %s\n", corpusModule, v.pkg, v.template, prefix, v.templateData)
+		if v.formatter != "" {
+			fmt.Fprintf(&y, "      formatter: %s\n", v.formatter)
+		}
+		if v.outOfPkg {
+			fmt.Fprintf(&y, "      dir: \"{{.InterfaceDir}}/mocks\"\n      pkgname: mocks\n")
+		}
 	}
 	os.WriteFile(filepath.Join(root, ".mockery.yml"), []byte(y.String()), 0o644)
 	run := exec.Command(e.bin, "--config", filepath.Join(root, ".mockery.yml"))
@@ -181,6 +193,9 @@ func loadTypes(root string, variants []instVariant) (map[string]*packages.Packag
 	var pats []string
 	for _, v := range variants {
 		pats = append(pats, "./"+v.pkg)
+		if v.outOfPkg {
+			pats = append(pats, "./"+v.pkg+"/mocks")
+		}
 	}
 	cfg := &packages.Config{Mode: packages.NeedName | packages.NeedTypes | packages.NeedTypesInfo | packages.NeedSyntax | packages.NeedFiles | packages.NeedImports | packages.NeedDeps,
 		Dir: root, Env: cleanEnv("GOFLAGS=-mod=mod", "GOWORK=off")}
@@ -847,12 +862,16 @@ func testifyContracts(p *packages.Package, v instVariant) (string, []structFact)
 
 type badShape struct {
 	file, template, templateData, what string
+	formatter                          string
+	outOfPkg                           bool
+	name                               string
 }
 
 // shapes for which a built-in template is known to produce a file that does not compile (known findings of C01)
 var badShapes = []badShape{
-	{"method_named_mock.go", "testify", "{unroll-variadic: true}", "a method named Mock collides with the embedded testify mock.Mock field"},
-	{"comparable_constraint.go", "matryer", "{skip-ensure: false}", "the matryer ensure line instantiates the mock with the constraint comparable itself"},
+	{file: "method_named_mock.go", template: "testify", templateData: "{unroll-variadic: true}", what: "a method named Mock collides with the embedded testify mock.Mock field"},
+	{file: "comparable_constraint.go", template: "matryer", templateData: "{skip-ensure: false}", what: "the matryer ensure line instantiates the mock with the constraint comparable itself"},
+	{file: "simple.go", template: "matryer", templateData: "{skip-ensure: false}", formatter: "gofmt", outOfPkg: true, name: "outofpkg_gofmt", what: "matryer, out-of-package, formatter gofmt: unused import fmt and unimported source package in the ensure line"},
 }
 
 // compilePhase: bounded stand-in for "every generated file compiles in its destination package":
@@ -889,15 +908,26 @@ func compilePhase(cr *checkResult, _ *symex.World) {
 		dir := filepath.Join(outDir(), "replays", cr.prop)
 		os.MkdirAll(dir, 0o755)
 		path := filepath.Join(dir, sanitize(name)+".txt")
-		os.WriteFile(path, []byte(fmt.Sprintf("property: %s\nfailed obligation: %s (bounded stand-in: the generated mocks of the corpus are valid Go)\nfailing input: %s, mocked with 'all: true', formatter goimports\nreplay: build mockery from the tree, copy the file into a scratch module (stdlib only), run mockery with that configuration, then 'go build ./...'\noutput:\n%s\n", cr.prop, name, input, err.Error())), 0o644)
+		os.WriteFile(path, []byte(fmt.Sprintf("property: %s\nfailed obligation: %s (bounded stand-in: the generated mocks of the corpus are valid Go)\nfailing input: %s, mocked with 'all: true' (formatter goimports unless said otherwise)\nreplay: build mockery from the tree, copy the file into a scratch module (stdlib only), run mockery with that configuration, then 'go build ./...'\noutput:\n%s\n", cr.prop, name, input, err.Error())), 0o644)
 		cr.violations = append(cr.violations, fmt.Sprintf("VIOLATION property=%s replay=%s obligation=%s", cr.prop, path, name))
 		outs = append(outs, outcome{name, "FAILS"})
 	}
 	try("instances/compile/corpus.matryer", "/verif/corpus/m/ifaces.go with template matryer", []instVariant{{pkg: "m", template: "matryer", templateData: "{skip-ensure: false, with-resets: true}"}})
 	try("instances/compile/corpus.testify", "/verif/corpus/m/ifaces.go with template testify", []instVariant{{pkg: "t", template: "testify", templateData: "{unroll-variadic: true}"}, {pkg: "tn", template: "testify", templateData: "{unroll-variadic: false}"}})
 	for _, b := range badShapes {
-		name := "instances/compile/bad." + strings.TrimSuffix(b.file, ".go") + "." + b.template
-		try(name, "/verif/corpus/bad/"+b.file+" with template "+b.template+" and template-data "+b.templateData, []instVariant{{pkg: "b", template: b.template, templateData: b.templateData, source: "bad/" + b.file, srcPkg: "bad"}})
+		shape := strings.TrimSuffix(b.file, ".go")
+		if b.name != "" {
+			shape = b.name
+		}
+		name := "instances/compile/bad." + shape + "." + b.template
+		input := "/verif/corpus/bad/" + b.file + " with template " + b.template + " and template-data " + b.templateData
+		if b.formatter != "" {
+			input += ", formatter " + b.formatter
+		}
+		if b.outOfPkg {
+			input += ", generated into a sub-directory as package mocks"
+		}
+		try(name, input, []instVariant{{pkg: "b", template: b.template, templateData: b.templateData, source: "bad/" + b.file, srcPkg: "bad", formatter: b.formatter, outOfPkg: b.outOfPkg}})
 	}
 	cr.extra["bounded_standin_generated_files_compile"] = map[string]any{
 		"bound":   "the corpus /verif/corpus/m/ifaces.go (8 interfaces) x {matryer, testify unrolled, testify not unrolled} plus the known-bad shapes of /verif/corpus/bad; NOT a proof, not counted among the obligations",
